@@ -64,6 +64,10 @@ def gen_case(rng, i):
             expect[name].append(("file", p, [sample]))
             continue
         samples = gen.json_case(rng, profile=rng.choice(["small", "general", "merge", "strings"]))["samples"]
+        if rng.random() < 0.25:
+            # id-keyed objects: one family per object, and one object mixing two families (no single pattern covers it)
+            samples[0] = dict(samples[0], by_node={"node_1": 1.5, "node_2": 2.5}, by_day={"2020_01": 1, "2020_02": 2},
+                              mixed={"node_1": 1.5, "2020_01": 2.5, "k7": 3.5})
         if rng.random() < 0.2:
             # two wide objects sharing 10 keys but < 70 % of them: merged only by the default number_10 policy
             common = {f"c{j}": j for j in range(10)}
@@ -108,6 +112,21 @@ def gen_case(rng, i):
                 else:
                     args.append(["-m", name, lookup if lookup is not None else (("-" if rng.random() < 0.3 else None)), p])
                 expect[name].append(("file", p, part))
+        if not use_glob and len(samples) >= 3 and rng.random() < 0.25:
+            # the same file used twice for this model (two lookups), with another file's argument in between
+            ext = "yaml" if fmt == "yaml" else "json"
+            p2 = f"{name.lower()}_twice{fcount}.{ext}"
+            fcount += 1
+            extra_a = [dict(samples[0], reused_first=1)]
+            extra_b = [dict(samples[-1], reused_second="s")]
+            files.append((p2, {"a": extra_a, "b": {"c": extra_b}}))
+            pos = rng.randrange(len(args) + 1) if False else len([a for a in args if a[1] == name])
+            mine = [a for a in args if a[1] == name]
+            insert_at = args.index(mine[0]) if mine else len(args)
+            args.insert(insert_at, ["-m", name, "a", p2])
+            args.append(["-m", name, "b.c", p2])
+            expect[name].insert(0, ("file:a", p2, extra_a))
+            expect[name].append(("file:b.c", p2, extra_b))
         if use_glob:
             ext = "yaml" if fmt == "yaml" else "json"
             args.append(["-m", name, None, os.path.join(sub, f"*.{ext}")])
@@ -116,8 +135,15 @@ def gen_case(rng, i):
     args.sort(key=lambda a: a[0] == "-l")
     names = sorted(names, key=lambda n: min(j for j, a in enumerate(args) if a[1] == n))  # dict insertion order in the CLI
     for name in names:
-        order = {a[3]: j for j, a in enumerate(args) if a[1] == name}
-        expect[name].sort(key=lambda e: order.get(e[1] if e[0] == "file" else None, min((order[a[3]] for a in args if a[1] == name and "*" in a[3]), default=0)))
+        def pos_of(e):
+            if e[0] == "glob":
+                return min((j for j, a in enumerate(args) if a[1] == name and "*" in a[3]), default=0)
+            lk = e[0].split(":", 1)[1] if ":" in e[0] else None
+            for j, a in enumerate(args):
+                if a[1] == name and a[3] == e[1] and (lk is None or a[2] == lk):
+                    return j
+            return 0
+        expect[name].sort(key=pos_of)
     o = {"framework": rng.choice(["base", "pydantic", "attrs", "dataclasses", "sqlmodel"]), "structure": rng.choice(["flat", "nested", None]),
          "datetime": rng.random() < 0.35, "strings_converters": rng.random() < 0.35, "max_literals": rng.choice([None, 0, 1, 5, 16]),
          "no_unidecode": rng.random() < 0.2, "merge": rng.choice([None, ["exact"], ["percent_50"], ["number_2"], ["percent_80", "number_3"], ["percent"], ["number"]]),
@@ -127,8 +153,8 @@ def gen_case(rng, i):
     allkeys = sorted({k for _p, d in files for k in gen.collect_keys([d] if isinstance(d, dict) else d if isinstance(d, list) else [])})
     if rng.random() < 0.25 and allkeys:
         o["dkf"] = rng.sample(allkeys, min(len(allkeys), 2))
-    if rng.random() < 0.25:
-        o["dkr"] = [rng.choice([r"k\d+", r"[a-z]+", r"k1\d*|k2\d*", r"sec\d"])]
+    if rng.random() < 0.3:
+        o["dkr"] = rng.sample([r"k\d+", r"[a-z]+", r"k1\d*|k2\d*", r"sec\d", r"node_\d+", r"\d+_\d+"], rng.choice([1, 2, 2, 3]))
     return {"i": i, "fmt": fmt, "files": files, "args": args, "expect": expect, "o": o, "names": names}
 
 
@@ -269,8 +295,11 @@ def run_one(case, tmp):
     for name in case["names"]:
         new = []
         for entry in case["expect"][name]:
-            if entry[0] == "file":
-                lookup = next((a[2] for a in case["args"] if a[3] == entry[1]), None)
+            if entry[0].startswith("file"):
+                if ":" in entry[0]:
+                    lookup = entry[0].split(":", 1)[1]
+                else:
+                    lookup = next((a[2] for a in case["args"] if a[3] == entry[1]), None)
                 new.append(("file", entry[1], ref_samples(ref_load(os.path.join(d, entry[1]), case["fmt"]), lookup)))
             else:
                 new.append(("glob", entry[1], [ref_samples(ref_load(os.path.join(d, p), case["fmt"]), None) for p in entry[1]]))
